@@ -6,7 +6,7 @@
    function table is typed once). *)
 From stdpp Require Import gmap strings.
 Require Import Grits.Base Grits.ModeDefs Grits.Modes Grits.STypes Grits.Forms Grits.Subst Grits.TcDeps Grits.Expand
-               Grits.Runtime Grits.spec.RtTyping Grits.proofs.RtSubst Grits.proofs.RtEffect Grits.proofs.StepErrors.
+               Grits.Runtime Grits.spec.RtTyping Grits.spec.Topo Grits.proofs.RtSubst Grits.proofs.RtEffect Grits.proofs.StepErrors.
 
 (* sequential substitution of the parameters of a function by the arguments of a call (the local
    `sub_all` of Runtime.call_body) *)
@@ -218,16 +218,32 @@ Proof.
 Qed.
 
 (* ------------------------------------------------------------------ what a typed process does next *)
+Definition own_chan (p : proc) (k : cid) : Prop := k ∈ cids_of (pr_provs p).
+
+(* which side of the channel the process acts on *)
+Definition send_side (p : proc) (k : cid) (m : msg) : Prop :=
+  (own_chan p k /\ is_pos_rule (m_rule m) = true) \/
+  (k ∈ form_chans (pr_body0 p) /\ is_pos_rule (m_rule m) = false).
+Definition recv_side (Δ : gmap cid sty) (p : proc) (k : cid) : Prop :=
+  exists T, Δ !! k = Some T /\
+    ((own_chan p k /\ pol_of_ty D T Neg) \/ (k ∈ form_chans (pr_body0 p) /\ pol_of_ty D T Pos)).
+
 Inductive act_view (Δ : gmap cid sty) (p : proc) : action -> Prop :=
-| AV_send k m : msg_typed Δ k m -> act_view Δ p (ASend k m)
+| AV_send k m : msg_typed Δ k m -> send_side p k m -> act_view Δ p (ASend k m)
 | AV_recv k :
-    is_Some (Δ !! k) ->
+    is_Some (Δ !! k) -> recv_side Δ p k ->
     (forall self m, msg_typed Δ k m -> exists e, on_message self p m = EOk e /\ eff_typed Δ Δ self p e) ->
     act_view Δ p (ARecv k)
 | AV_internal :
     (forall self, Δ !! (self ++ [pr_next p]) = None ->
        exists e Δ', internal_effect Async F self p = EOk e /\ eff_typed Δ Δ' self p e) ->
     act_view Δ p AInternal.
+
+Lemma pol_from_head Tk X u pl : teq Tk X -> whd X u -> polarity_of u = Ok pl -> pol_of_ty D Tk pl.
+Proof.
+  intros Ht Hu Hp. destruct (teq_head D teq Hteq X Tk u (teq_s _ _ Ht) Hu) as [v [Hv Hrel]].
+  exists v. split; auto. apply head_rel_pol in Hrel. congruence.
+Qed.
 
 Section Act.
 Variables (Δ : gmap cid sty) (n : name) (k0 : cid) (T0 : sty) (nx : nat).
@@ -241,6 +257,13 @@ Proof. intros Hs Hb. exists n, s, rs. split; auto. split; auto. exists k0, T0. a
 
 Lemma self_prov s : teq T0 s -> prov_ty Δ n s.
 Proof. intros Hs. exists k0, T0. auto. Qed.
+
+Lemma own_k0 b : own_chan (P b) k0.
+Proof. unfold own_chan. simpl. rewrite Hk0. set_solver. Qed.
+
+Ltac in_body :=
+  simpl; unfold name_chans;
+  repeat match goal with H : chan ?x = _ |- context [chan ?x] => rewrite H end; set_solver.
 
 Ltac compute_action :=
   unfold action_of, send_on, recv_on, internal, multi, self_chan, self_name_of, prov0; simpl;
@@ -296,7 +319,7 @@ Lemma act_SendP s rs to pay cont A B md :
   act_view Δ (P (FSend to pay cont)) (action_of Async D (P (FSend to pay cont))).
 Proof.
   intros Hs Hto Hw Hpay Hcont. apply prov_closed in Hto. destruct Hto as [Hto1 Hto2].
-  compute_action. apply AV_send. exists T0. split; auto. simpl.
+  compute_action. apply AV_send; [|left; split; [apply own_k0|reflexivity]]. exists T0. split; auto. simpl.
   pose proof (teq_head D teq Hteq s T0 _ (teq_s _ _ Hs) Hw) as [v [Hv Hrel]].
   destruct v; simpl in Hrel; try contradiction. destruct Hrel as [Ha Hb].
   do 3 eexists. split; [exact Hv|]. split; eapply client_ty_conv; eauto.
@@ -309,7 +332,7 @@ Lemma act_SendC s rs to pay cont T A B md :
 Proof.
   intros Hs Hto Hw Hpay Hcont HB. apply prov_closed in Hcont. destruct Hcont as [Hc1 Hc2].
   destruct (client_closed _ _ _ Hto) as [Hto1 [c [t [Hto2 [Hto3 Hto4]]]]].
-  compute_action. apply AV_send. exists t. split; auto. simpl.
+  compute_action. apply AV_send; [|right; split; [in_body|reflexivity]]. exists t. split; auto. simpl.
   pose proof (teq_head D teq Hteq T t _ (teq_s _ _ Hto4) Hw) as [v [Hv Hrel]].
   destruct v; simpl in Hrel; try contradiction. destruct Hrel as [Ha Hb].
   do 3 eexists. split; [exact Hv|]. split; [eapply client_ty_conv; eauto|].
@@ -324,7 +347,7 @@ Lemma act_RecvP s rs pay cont from k A B md :
   act_view Δ (P (FRecv pay cont from k)) (action_of Async D (P (FRecv pay cont from k))).
 Proof.
   intros Hs Hfrom Hw Hbp Hbc Hne Hk Hty. apply prov_closed in Hfrom. destruct Hfrom as [Hf1 Hf2].
-  compute_action. apply AV_recv; [eauto|].
+  compute_action. apply AV_recv; [eauto | exists T0; split; [exact HT0|left; split; [apply own_k0|eapply pol_from_head; eauto; reflexivity]] | ].
   msg_cases HT0 Hs Hw.
   - (* RRCV *) destruct Hrel as [Ha Hb].
     eexists. split; [reflexivity|]. apply eff_typed_cont; auto. simpl.
@@ -344,7 +367,7 @@ Lemma act_RecvC s rs pay cont from k T A B md :
 Proof.
   intros Hs Hfrom Hw Hbp Hbc Hne Hk.
   destruct (client_closed _ _ _ Hfrom) as [Hf1 [c [t [Hf2 [Hf3 Hf4]]]]].
-  compute_action. apply AV_recv; [eauto|].
+  compute_action. apply AV_recv; [eauto | eexists; split; [eassumption|right; split; [in_body|eapply pol_from_head; eauto; reflexivity]] | ].
   msg_cases Hf3 Hf4 Hw.
   (* RSND *) destruct Hrel as [Ha Hb].
   eexists. split; [reflexivity|]. apply eff_typed_cont; auto. simpl.
@@ -360,7 +383,7 @@ Lemma act_SelP s rs to l cont bs md A :
   act_view Δ (P (FSel to l cont)) (action_of Async D (P (FSel to l cont))).
 Proof.
   intros Hs Hto Hw Hl Hcont. apply prov_closed in Hto. destruct Hto as [Hto1 Hto2].
-  compute_action. apply AV_send. exists T0. split; auto. simpl.
+  compute_action. apply AV_send; [|left; split; [apply own_k0|reflexivity]]. exists T0. split; auto. simpl.
   pose proof (teq_head D teq Hteq s T0 _ (teq_s _ _ Hs) Hw) as [v [Hv Hrel]].
   destruct v; simpl in Hrel; try contradiction.
   destruct (brs_rel_find _ _ _ _ _ Hrel Hl) as [A' [HA' Hteq']].
@@ -374,7 +397,7 @@ Lemma act_SelC s rs to l cont T bs md A :
 Proof.
   intros Hs Hto Hw Hl Hcont HA. apply prov_closed in Hcont. destruct Hcont as [Hc1 Hc2].
   destruct (client_closed _ _ _ Hto) as [Hto1 [c [t [Hto2 [Hto3 Hto4]]]]].
-  compute_action. apply AV_send. exists t. split; auto. simpl.
+  compute_action. apply AV_send; [|right; split; [in_body|reflexivity]]. exists t. split; auto. simpl.
   pose proof (teq_head D teq Hteq T t _ (teq_s _ _ Hto4) Hw) as [v [Hv Hrel]].
   destruct v; simpl in Hrel; try contradiction.
   destruct (brs_rel_find _ _ _ _ _ Hrel Hl) as [A' [HA' Hteq']].
@@ -389,7 +412,7 @@ Lemma act_CaseP s rs from b bs md :
   act_view Δ (P (FCase from b)) (action_of Async D (P (FCase from b))).
 Proof.
   intros Hs Hfrom Hw Hcov Hb Hty. apply prov_closed in Hfrom. destruct Hfrom as [Hf1 Hf2].
-  compute_action. apply AV_recv; [eauto|].
+  compute_action. apply AV_recv; [eauto | exists T0; split; [exact HT0|left; split; [apply own_k0|eapply pol_from_head; eauto; reflexivity]] | ].
   msg_cases HT0 Hs Hw.
   - (* RBRA *)
     match goal with Hf : find_br (m_label m) _ = Some _ |- _ =>
@@ -412,7 +435,7 @@ Lemma act_CaseC s rs from b T bs md :
 Proof.
   intros Hs Hfrom Hw Hcov Hb.
   destruct (client_closed _ _ _ Hfrom) as [Hf1 [c [t [Hf2 [Hf3 Hf4]]]]].
-  compute_action. apply AV_recv; [eauto|].
+  compute_action. apply AV_recv; [eauto | eexists; split; [eassumption|right; split; [in_body|eapply pol_from_head; eauto; reflexivity]] | ].
   msg_cases Hf3 Hf4 Hw.
   (* RSEL *)
   match goal with Hf : find_br (m_label m) _ = Some _ |- _ =>
@@ -455,7 +478,7 @@ Lemma act_Close s rs c md :
   act_view Δ (P (FClose c)) (action_of Async D (P (FClose c))).
 Proof.
   intros Hs Hc Hw. apply prov_closed in Hc. destruct Hc as [Hc1 Hc2].
-  compute_action. apply AV_send. exists T0. split; auto. simpl.
+  compute_action. apply AV_send; [|left; split; [apply own_k0|reflexivity]]. exists T0. split; auto. simpl.
   pose proof (teq_head D teq Hteq s T0 _ (teq_s _ _ Hs) Hw) as [v [Hv Hrel]].
   destruct v; simpl in Hrel; try contradiction. eauto.
 Qed.
@@ -466,7 +489,7 @@ Lemma act_Wait s rs c k T md :
 Proof.
   intros Hs Hc Hw Hk.
   destruct (client_closed _ _ _ Hc) as [Hc1 [c' [t [Hc2 [Hc3 Hc4]]]]].
-  compute_action. apply AV_recv; [eauto|].
+  compute_action. apply AV_recv; [eauto | eexists; split; [eassumption|right; split; [in_body|eapply pol_from_head; eauto; reflexivity]] | ].
   msg_cases Hc3 Hc4 Hw.
   eexists. split; [reflexivity|]. apply eff_typed_cont; auto. simpl. eapply self_typed; eauto.
 Qed.
@@ -484,7 +507,7 @@ Proof.
   assert (HX : teq t t0) by (eapply teq_t; [exact Hf4|apply teq_s; exact Ht0]).
   unfold action_of. simpl. rewrite Hto1. simpl. rewrite Hfp.
   destruct (polarity_of t0) as [[| |]|w|w] eqn:Epol; try (destruct t0; discriminate).
-  - (* positive: relay *) rewrite Hf2. apply AV_recv; [eauto|].
+  - (* positive: relay *) rewrite Hf2. apply AV_recv; [eauto | exists t; split; [exact Hf3|right; split; [in_body|eapply pol_from_head; [exact HX|exact Hw0|exact Epol]]] | ].
     intros self m [Tk' [HTk' Hm]]. rewrite Hf3 in HTk'. injection HTk' as <-.
     unfold on_message; simpl.
     destruct (m_rule m) eqn:Er; simpl; break;
@@ -514,7 +537,7 @@ Proof.
         destruct (brs_rel_find _ _ _ _ _ Hrel2 Hf) as [A' [HA' Hteq']] end.
       eexists. split; [reflexivity|]. apply eff_typed_cont; auto. simpl. eapply self_typed; eauto.
       eapply T_SelP; eauto; eapply client_ty_conv; eauto.
-  - (* negative: FWD request *) rewrite Hf2. apply AV_send. exists t. split; auto. simpl.
+  - (* negative: FWD request *) rewrite Hf2. apply AV_send; [|right; split; [in_body|reflexivity]]. exists t. split; auto. simpl.
     split.
     + pose proof (teq_head D teq Hteq t0 t t0 (teq_s _ _ HX) Hw0) as [v [Hv Hrel]].
       exists v. split; auto. apply head_rel_pol in Hrel. congruence.
@@ -537,7 +560,7 @@ Lemma act_CastP s rs to cont fm tm A :
   act_view Δ (P (FCast to cont)) (action_of Async D (P (FCast to cont))).
 Proof.
   intros Hs Hto Hw Hcont. apply prov_closed in Hto. destruct Hto as [Hto1 Hto2].
-  compute_action. apply AV_send. exists T0. split; auto. simpl.
+  compute_action. apply AV_send; [|left; split; [apply own_k0|reflexivity]]. exists T0. split; auto. simpl.
   pose proof (teq_head D teq Hteq s T0 _ (teq_s _ _ Hs) Hw) as [v [Hv Hrel]].
   destruct v; simpl in Hrel; try contradiction.
   do 3 eexists. split; [exact Hv|]. eapply client_ty_conv; eauto.
@@ -549,7 +572,7 @@ Lemma act_CastC s rs to cont T fm tm A :
 Proof.
   intros Hs Hto Hw Hcont HA. apply prov_closed in Hcont. destruct Hcont as [Hc1 Hc2].
   destruct (client_closed _ _ _ Hto) as [Hto1 [c [t [Hto2 [Hto3 Hto4]]]]].
-  compute_action. apply AV_send. exists t. split; auto. simpl.
+  compute_action. apply AV_send; [|right; split; [in_body|reflexivity]]. exists t. split; auto. simpl.
   pose proof (teq_head D teq Hteq T t _ (teq_s _ _ Hto4) Hw) as [v [Hv Hrel]].
   destruct v; simpl in Hrel; try contradiction.
   do 3 eexists. split; [exact Hv|].
@@ -563,7 +586,7 @@ Lemma act_ShiftP s rs x from k fm tm A :
   act_view Δ (P (FShift x from k)) (action_of Async D (P (FShift x from k))).
 Proof.
   intros Hs Hfrom Hw Hbx Hk Hty. apply prov_closed in Hfrom. destruct Hfrom as [Hf1 Hf2].
-  compute_action. apply AV_recv; [eauto|].
+  compute_action. apply AV_recv; [eauto | exists T0; split; [exact HT0|left; split; [apply own_k0|eapply pol_from_head; eauto; reflexivity]] | ].
   msg_cases HT0 Hs Hw.
   - (* RSHF *)
     eexists. split; [reflexivity|]. apply eff_typed_cont; auto. simpl.
@@ -581,7 +604,7 @@ Lemma act_ShiftC s rs x from k T fm tm A :
 Proof.
   intros Hs Hfrom Hw Hbx Hk.
   destruct (client_closed _ _ _ Hfrom) as [Hf1 [c [t [Hf2 [Hf3 Hf4]]]]].
-  compute_action. apply AV_recv; [eauto|].
+  compute_action. apply AV_recv; [eauto | eexists; split; [eassumption|right; split; [in_body|eapply pol_from_head; eauto; reflexivity]] | ].
   msg_cases Hf3 Hf4 Hw.
   eexists. split; [reflexivity|]. apply eff_typed_cont; auto. simpl.
   apply (self_typed s (rs ∖ {[ident x]})); [exact Hs|].
@@ -644,7 +667,7 @@ Proof.
   destruct (procs c !! self) as [p|] eqn:Ep; [|left; reflexivity].
   pose proof (typed_action Δ p (Hp _ _ Ep)) as Hv.
   remember (action_of Async D p) as a eqn:Ea. symmetry in Ea.
-  destruct Hv as [k m Hmsg|k Hk Hrecv|Hint].
+  destruct Hv as [k m Hmsg Hside|k Hk Hside Hrecv|Hint].
   2: { (* receive *)
     destruct (Hd k Hk) as [st Hst]. rewrite Hst.
     destruct (ch_buf st) as [m|] eqn:Eb.
